@@ -148,17 +148,6 @@ def merge(prop, mod, tier, seed, cells, outs, problems, wall):
             d = cov.setdefault(c["label"], {"lines": set(), "hit": set()})
             d["lines"] |= set(c["lines"])
             d["hit"] |= set(c["hit"])
-    # optional property-level post-processing / classification
-    if hasattr(mod, "classify"):
-        nf, nc = {}, {}
-        for m, lst in fails.items():
-            for d in lst:
-                m2 = mod.classify(m, d)
-                nf.setdefault(m2, []).append(d)
-            # counts follow the first detail's class when details were truncated
-            m2 = mod.classify(m, lst[0]) if lst else m
-            nc[m2] = nc.get(m2, 0) + fail_counts.get(m, len(lst))
-        fails, fail_counts = nf, nc
     # verdict
     lines = []
     viol = []
